@@ -1060,6 +1060,52 @@ def chunks(seq, n):
     size = max(1, (len(seq) + n - 1) // n)
     return [seq[i:i + size] for i in range(0, len(seq), size)]
 
+# ---- one lambda (one code object / one text) applied several times in ONE chain ---------------------------------------
+# for v in values: q = q.METHOD(lambda p: p.n OP v): every application has its own value of the outer-scope variable.
+# Chains of 2 and 3 applications x {filter, where} x {lambda, string} x operators x all value tuples over {0..3};
+# the reference is Python's own evaluation of the same conditions over the rows.
+def repeated_lambda(ctx):
+    import itertools, operator
+    from pony import orm
+    db = orm.Database()
+    class P(db.Entity):
+        id = orm.PrimaryKey(int)
+        n = orm.Required(int)
+    db.bind('sqlite', ':memory:'); db.generate_mapping(create_tables=True)
+    with orm.db_session:
+        for i in range(8): P(id=i + 1, n=i % 4)
+    OPS = {'!=': operator.ne, '<=': operator.le, '>': operator.gt}
+    def chain_lambda(method, op, values):
+        q = P.select()
+        for v in values:
+            if op == '!=': q = getattr(q, method)(lambda p: p.n != v)
+            elif op == '<=': q = getattr(q, method)(lambda p: p.n <= v)
+            else: q = getattr(q, method)(lambda p: p.n > v)
+        return q
+    def chain_text(method, op, values):
+        q = P.select()
+        for v in values: q = getattr(q, method)('lambda p: p.n %s v' % op)
+        return q
+    with orm.db_session:
+        rows = [(p.id, p.n) for p in P.select()]
+        for k in (2, 3):
+            for values in itertools.product(range(4), repeat=k):
+                if len(set(values)) == 1: continue
+                for method in ('filter', 'where'):
+                    for op, f in OPS.items():
+                        for form, build in (('lambda', chain_lambda), ('text', chain_text)):
+                            ctx.count('repeated:chains')
+                            try: got = sorted(p.id for p in build(method, op, values))
+                            except Exception as e:
+                                ctx.count('repeated:refused'); continue
+                            exp = sorted(i for i, n in rows if all(f(n, v) for v in values))
+                            if got == exp: ctx.count('repeated:ok'); continue
+                            ctx.count('repeated:wrong')
+                            ctx.violation('repeated-lambda|%s(%s) applied %d times with different outer values' % (method, form, k),
+                                          dict(repeated=dict(method=method, op=op, values=list(values), form=form)),
+                                          'q.%s(lambda p: p.n %s v) for v in %r: expected ids %r, got %r' % (method, op, values, exp, got))
+    db.disconnect()
+
 def run(ctx):
     import pony.orm, pony.orm.asttranslation  # noqa: import before forking
     from vf.seams import dbapi  # noqa
@@ -1074,6 +1120,7 @@ def run(ctx):
     for i in range(0, len(ch), ctx.nworkers * 6):
         for d in ctx.pmap(work_e2e, ch[i:i + ctx.nworkers * 6]): core.absorb(ctx, d)
     cache_histories(ctx)
+    repeated_lambda(ctx)
     c = ctx.counters
     ctx.guard('oracle 1 trees', c.get('src:trees', 0), total1)
     ctx.guard('oracle 1 trees regenerated and parsed back (same or wrong)', c.get('src:same', 0) + c.get('src:wrong', 0), 2000)
@@ -1082,6 +1129,7 @@ def run(ctx):
     for f in FRONTS:
         ctx.guard('oracle 2 compared on front end ' + f, c.get('e2e:%s:ok' % f, 0) + c.get('e2e:%s:wrong' % f, 0), 200)
     ctx.guard('cache history steps', c.get('cache:history_steps', 0), 40)
+    ctx.guard('chains that apply one lambda several times, answered and compared', c.get('repeated:ok', 0) + c.get('repeated:wrong', 0), 500)
     ctx.guard('cache history steps Pony answered', c.get('cache:history_steps', 0) - c.get('cache:refused_steps', 0), 50)
     ctx.assume('ast.parse / ast.unparse / compile of CPython %d.%d define what regenerated text means' % sys.version_info[:2])
     ctx.assume('norm() folds only what CPython folds itself: signed number literals, a+bj, constant tuples, adjacent f-string literals, bare FormattedValue == one-field f-string')
@@ -1097,6 +1145,11 @@ def totuple(x):
 
 def replay(ctx, case):
     sys.setrecursionlimit(10000)
+    if 'repeated' in case:
+        sub = core.Sub(); repeated_lambda(sub)
+        bad = [e for e in sub.found.values() if e['case'].get('repeated') == case['repeated']]
+        for e in bad: print(e['message'])
+        return not bad
     o = case.get('oracle')
     if o == 'src':
         st, d = check_src(totuple(case['skeleton']))
